@@ -67,7 +67,7 @@ var tiers = map[string]map[string]tierCfg{
 	},
 	"C12": {
 		"quick":    {Runs: 96, Workers: 16, WorkerTimeout: 8 * time.Minute, Race: true, PerRunProcess: true},
-		"thorough": {Runs: 4000, Workers: 16, WorkerTimeout: 3 * time.Hour, Race: true, PerRunProcess: true, Instrument: true},
+		"thorough": {Runs: 4000, Workers: 16, WorkerTimeout: 3 * time.Hour, Race: true, PerRunProcess: true},
 	},
 }
 
